@@ -1,7 +1,7 @@
 (* Property C17: all memory goes through the user's allocators and is released at finish.
    Only the property theorems, each closed by [exact] and followed by Print Assumptions. *)
 From Coq Require Import List NArith Bool.
-From MirV Require Import C17.Alloc C17.AllocProofs.
+From MirV Require Import C19.Varr C17.Alloc C17.AllocProofs C17.VarrTrace.
 
 (* The executable monitor that the check runs on the allocator-call traces of the real library
    accepts a trace exactly when the trace satisfies the contract of CUSTOM-ALLOCATORS.md stated
@@ -17,3 +17,15 @@ Print Assumptions monitor_sound_complete.
 Theorem first_reject_none_iff_accepts : forall t, first_reject st0 t 0%N = None <-> accepts t = true.
 Proof. exact first_reject_accepts. Qed.
 Print Assumptions first_reject_none_iff_accepts.
+
+(* The container layer: for every VARR operation script (model of mir-varr.h proved in C19 to report
+   the true old capacity on every realloc), every element size, and every choice of non-null result
+   pointers by the allocator, the emitted create / realloc* / destroy / Finish trace is accepted.
+   Together with realloc_only_from_varr_resize (Properties_C17_Sites.v: MIR_realloc is called only by
+   VARR expand / tailor) this covers every realloc the library can issue. *)
+Theorem varr_traces_accepted :
+  forall esz dsz d init p ops qs,
+    d <> 0%N -> p <> 0%N -> p <> d -> Forall (fun q => q <> 0%N /\ q <> d) qs ->
+    accepts (varr_trace esz dsz d init p ops qs) = true.
+Proof. exact varr_traces_accepted_lemma. Qed.
+Print Assumptions varr_traces_accepted.
